@@ -173,9 +173,9 @@ func replay(c *vrun.Ctx, cases []rawCase) error {
 	}
 	reg := newHdRegistry(c.Seed)
 
-	editSamples, wifEdits, hdEdits := 50, 40, 20
+	editSamples, wifEdits, hdEdits := 120, 60, 30
 	if c.Thorough {
-		editSamples, wifEdits, hdEdits = 1500, 600, 300
+		editSamples, wifEdits, hdEdits = 4000, 1500, 600
 	}
 
 	var mu sync.Mutex
